@@ -232,6 +232,11 @@ func c07Run(c c07Case) (pubs []envnats.Msg, problems []string) {
 		}
 		conn.Inject(subj, "REPLY", []byte(payload))
 		vsched.AwaitQuiescence()
+		if c.HTTP {
+			// the same request again, this time not flagged as HTTP: nothing of the first response may carry over
+			conn.Inject(subj, "REPLY2", []byte(`{"cid":"`+c.CID+`"}`))
+			vsched.AwaitQuiescence()
+		}
 		pubs = append(pubs, conn.Pubs[n0:]...)
 	})
 	for _, p := range r.Panics {
@@ -252,6 +257,12 @@ func c07Judge(c c07Case, emit func(prop, desc string)) string {
 	var sig []string
 	for _, m := range pubs {
 		sig = append(sig, m.Subject+" "+m.Data)
+		if m.Subject == "REPLY2" {
+			if e := ref.ValidateResponse(m.Data, false); e != "" {
+				emit("C07", fmt.Sprintf("response %q to a second request, not flagged as HTTP, after an HTTP one: %s", m.Data, e))
+			}
+			continue
+		}
 		if m.Subject == "REPLY" {
 			if e := ref.ValidateResponse(m.Data, c.HTTP); e != "" {
 				emit("C07", fmt.Sprintf("response %q: %s", m.Data, e))
@@ -281,6 +292,10 @@ func c07Judge(c c07Case, emit func(prop, desc string)) string {
 	}
 	if final != 1 {
 		emit("C04", fmt.Sprintf("%d responses, want exactly 1: %v", final, sig))
+		usesVal := map[string]bool{"ErrorData": true, "Model": true, "QueryModel": true, "Collection": true, "QueryCollection": true, "OK": true}[c.Method]
+		if final == 0 && usesVal && !c07Values[c.Val].ok {
+			emit("C07", fmt.Sprintf("unmarshalable value %s through %s produced no message at all, want a system.internalError response", c07Values[c.Val].name, c.Method))
+		}
 	}
 	return strings.Join(sig, ";")
 }
